@@ -33,7 +33,12 @@ ORACLES = {
     "C13": ["c13_", "oracle_c13"],
     "C15": ["c15_", "oracle_c15"],
     "C16": ["oracle_c16", "c16_"],
+    "C17": ["oracle_c17"],
     "C18": ["oracle_c18"],
+}
+# oracles living in another test target / needing further cargo features: property -> (test target, extra features)
+ORACLE_TARGETS = {
+    "C17": ("verif_replay_io", ",csv,arrow,parquet"),
 }
 
 
@@ -54,9 +59,10 @@ def _run_oracles(prop, feature, timeout):
     filters = ORACLES.get(prop)
     if not filters:
         return {"ran": False, "reason": "no executable oracle for this property"}
-    if not os.path.exists(os.path.join(REPO, "Cargo.toml")) or not os.path.exists(os.path.join(REPO, "tests", "verif_replay.rs")):
-        return {"ran": False, "reason": f"{REPO} is not a cargo project with tests/verif_replay.rs"}
-    cmd = ["cargo", "test", "--offline", "--features", feature, "--test", "verif_replay", "--"] + filters + ["--nocapture", "--test-threads", "4"]
+    target, extra = ORACLE_TARGETS.get(prop, ("verif_replay", ""))
+    if not os.path.exists(os.path.join(REPO, "Cargo.toml")) or not os.path.exists(os.path.join(REPO, "tests", target + ".rs")):
+        return {"ran": False, "reason": f"{REPO} is not a cargo project with tests/{target}.rs"}
+    cmd = ["cargo", "test", "--offline", "--features", feature + extra, "--test", target, "--"] + filters + ["--nocapture", "--test-threads", "4"]
     t0 = time.time()
     env = dict(os.environ, CARGO_NET_OFFLINE="true", RUST_BACKTRACE="0")
     try:
